@@ -54,6 +54,7 @@ struct simos_hooks {
     int (*mutex_timedlock_)(pthread_mutex_t *, const struct timespec *);
     /* process-wide kernel state: what = 0 rlimit, 1 signal disposition, 2 umask; arg = resource / signal number */
     void (*process_state_)(int what, int arg, int is_write);
+    void (*sigmask_)(const void *set, void *oldset, size_t n); /* pthread_sigmask/sigprocmask: the kernel reads *set and writes *oldset (n bytes each) */
     int (*getrlimit_)(int, void *);          /* struct rlimit *; if set, replaces the real call */
     int (*setrlimit_)(int, const void *);
     int (*nanosleep_)(const struct timespec *, struct timespec *);
